@@ -23,7 +23,7 @@ WF = W.Workflow([W.T("A", [], ["a"], spec="echo A\n")])
 DEFAULTED = {"verbose": "info", "clean_logs": True, "use_spec_hashes": False}
 
 KEYS_FULL = ["a", "a.b", "a.bc", "backend", "verbose", "clean_logs", "backend.slurm.log_mode", "backend.slurmx.y", "neverset"]
-VALUES_FULL = ["5", "-3", "0", "yes", "no", "true", "false", "True", "", "text", "1.5", "null", "a b", "é"]
+VALUES_FULL = ["5", "-3", "0", "yes", "no", "true", "false", "True", "", "text", "1.5", "null", "a b", "é", "1.10", "1e3", ".50", "nan", "Infinity", "0x10", "[1]", "{}"]
 VALUES_FOR = {"backend": ["slurm", "sge"], "verbose": ["debug", "warning"], "backend.slurm.log_mode": ["merged", "none"], "clean_logs": ["no", "yes", "0"]}
 
 
@@ -284,7 +284,7 @@ def run(ctx):
     w1 = W.World(WF, files={"nested/dir/keep": (1, "k")}, conf={"a": 1, "a.b": "x", "backend": "slurm"})
     prefix = [["set", "a", "1"], ["set", "a.b", "x"], ["set", "backend", "slurm"]]
     e2.bfs(ctx, me, "conf_expand", [w0, (w1, prefix)], 2 if quick else 3, chunk=2, keys=KEYS_FULL if not quick else ["a", "a.b", "a.bc", "verbose", "clean_logs", "neverset", "backend.slurmx.y"],
-           values=VALUES_FULL if not quick else ["5", "-3", "yes", "false", "True", "", "text", "a b"])
+           values=VALUES_FULL if not quick else ["5", "-3", "yes", "false", "True", "", "text", "a b", "1.10", "1e3"])
     e2.bfs(ctx, me, "conf_expand", [w0], 3 if quick else 5, chunk=2, keys=["a", "a.b", "verbose"], values=["5", "no", "é"])
     bk = [None, "slurm", "sge", "lsf", "local"]
     ctx.pmap(me, "prec_batch", [("backend", f, c) for f in bk for c in bk] + [("verbose", f, c) for f in (None, "debug", "info", "warning") for c in (None, "debug", "info", "warning")], chunk=4)
